@@ -82,8 +82,25 @@ def run(ctx):
         # manual fixed positions (any qubit in the support of each stabilizer; inadmissible choices raise StabilizerError
         # by contract and are skipped) and maintain_length=True: the same sector statement must hold
         for attempt in range(2):
-            man = [rng.choice([q for q, _ in s_]) for s_ in stabs]
-            if len(set(man)) != len(man): continue
+            # admissible manual positions: stabilizer i, after the earlier stabilizers have been used to clear it from the earlier
+            # fixed positions (documented convention: a generator acting as X or Y (Z) on the fixed qubit constrains the other
+            # strings to Z (X) or the identity there), must act non-trivially on position i
+            def pmul(a, b):
+                da, db = dict(a), dict(b); out = {}
+                for q_ in set(da) | set(db):
+                    x, y = da.get(q_), db.get(q_)
+                    if x is None or y is None: out[q_] = x or y
+                    elif x != y: out[q_] = ({'X', 'Y', 'Z'} - {x, y}).pop()
+                return tuple(sorted(out.items()))
+            cur = list(stabs); man = []
+            for i_ in range(len(cur)):
+                supp = [q for q, _ in cur[i_] if q not in man]
+                if not supp: man = None; break
+                p_i = rng.choice(supp); man.append(p_i)
+                keep = {'X': 'Z', 'Y': 'Z', 'Z': 'X'}[dict(cur[i_])[p_i]]
+                for j_ in range(i_ + 1, len(cur)):
+                    if dict(cur[j_]).get(p_i) not in (None, keep): cur[j_] = pmul(cur[j_], cur[i_])
+            if man is None or len(set(man)) != len(man): continue
             try:
                 red_m, pos_m = qt.reduce_number_of_terms(H, S, manual_input=True, fixed_positions=list(man), output_fixed_positions=True)
                 tap_m, rem_m = qt.taper_off_qubits(H, S, manual_input=True, fixed_positions=list(man), output_tapered_positions=True)
@@ -97,6 +114,18 @@ def run(ctx):
                 (coq_qop(H), coq_qop(red_m), stl, cNl(pos_m), coq_qop(red_m), coq_qop(tap_m), cNl(sorted(rem_m)), coq_qop(red_m)), rpm, key=('m', repr(rpm)))
             if sorted(pos_m) != sorted(man):
                 ctx.violation('C16 reduce_number_of_terms ignored the manual fixed positions', rpm)
+            # the caller's list object, reused for a second call (e.g. a second observable): it must not have been reordered,
+            # and the second result must be the first one
+            shared = list(man)
+            try:
+                tap_a = qt.taper_off_qubits(H, S, manual_input=True, fixed_positions=shared)
+                red_b = qt.reduce_number_of_terms(H, S, manual_input=True, fixed_positions=shared)
+                tap_b = qt.taper_off_qubits(H, S, manual_input=True, fixed_positions=shared)
+                ctx.count('taper_manual_positions_reused', 1, nontrivial_key=repr(rpm))
+                if shared != list(man) or tap_a != tap_m or tap_b != tap_m or red_b != red_m:
+                    ctx.violation('C16 tapering with a reused fixed_positions list: the list was modified (%r -> %r) or the repeated call returns a different operator' % (man, shared), rpm)
+            except Exception as e:
+                ctx.violation('C16 tapering with a reused fixed_positions list raised %s: %s (a fresh list is accepted)' % (type(e).__name__, e), rpm)
         try:
             red_l = qt.reduce_number_of_terms(H, S, maintain_length=True)
             if exact_terms_ok(red_l.terms, lo=30):
